@@ -313,7 +313,7 @@ func (e *engine) Step(ws []string, o *Out) string {
 	switch ws[0] {
 	case "node":
 		id, addr := Unhx(ws[1]), Unhx(ws[2])
-		if _, ok := e.nodes[id]; ok {
+		if _, ok := e.nodes[id]; ok || e.byAddr(addr) != nil {
 			return "err exists"
 		}
 		g := &gnode{id: id, addr: addr, w: &recWatcher{}, fd: &scriptFD{suspected: map[string]bool{}},
